@@ -281,6 +281,10 @@ impl Segments {
         }
     }
 
+    pub fn snd_una(&self) -> SeqNr {
+        self.snd_una
+    }
+
     pub fn total_len_packets(&self) -> usize {
         self.segments.len()
     }
